@@ -147,7 +147,7 @@ func (s *Sched) nameOf(obj interface{}) string {
 	if n, ok := s.lockName[obj]; ok {
 		return n
 	}
-	return fmt.Sprintf("%T", obj)
+	return fmt.Sprintf("%T@%p", obj, obj)
 }
 
 // ---- vector clocks ----
